@@ -296,7 +296,7 @@ def is_dippy_configured() -> bool:
 
 def get_context_from_transcript(transcript_path: str) -> int | None:
     """Read transcript JSONL and get actual context length from most recent message."""
-    if not transcript_path:
+    if not transcript_path or not isinstance(transcript_path, str):
         log.debug("transcript_no_path")
         return None
     try:
